@@ -2,7 +2,12 @@ module verifharness
 
 go 1.17
 
-require github.com/cloudwego/dynamicgo v0.0.0
+require (
+	github.com/cloudwego/dynamicgo v0.0.0
+	github.com/golang/protobuf v1.5.4
+	github.com/jhump/protoreflect v1.8.2
+	google.golang.org/protobuf v1.33.0
+)
 
 require (
 	github.com/bytedance/sonic v1.13.1 // indirect
@@ -17,6 +22,7 @@ require (
 	github.com/stretchr/testify v1.9.0 // indirect
 	github.com/twitchyliquid64/golang-asm v0.15.1 // indirect
 	golang.org/x/arch v0.0.0-20210923205945-b76863e36670 // indirect
+	google.golang.org/genproto v0.0.0-20200526211855-cb27e3aa2013 // indirect
 	gopkg.in/yaml.v3 v3.0.1 // indirect
 )
 
